@@ -344,6 +344,22 @@ func (env *specEnv) lookupIdent(name string) (sval, bool) {
 		pt := b.typ.Underlying().(*types.Pointer)
 		return env.deref(sval{t: b.t, typ: pt}), true
 	}
+	// a local that lives in memory (its address is taken, e.g. by a field assignment `x.f = v`): the name
+	// denotes the CURRENT content of its cell in the state the clause is evaluated in — not the value of the
+	// last whole-variable load, which later field stores would have made stale
+	if env.fr != nil {
+		if a, ok := env.fr.srcAddrs[name]; ok && a != nil {
+			if al, isAl := a.(*ssa.Alloc); isAl {
+				if _, have := env.fr.vals[a]; have {
+					if localStructAlloc(al) {
+						et := al.Type().Underlying().(*types.Pointer).Elem()
+						return sval{t: env.fr.localLoad(env.st, al, nil, et), typ: et}, true
+					}
+					return env.deref(sval{t: env.fr.vals[a], typ: a.Type()}), true
+				}
+			}
+		}
+	}
 	// source-level local of the frame (unique SSA value)
 	if env.fr != nil {
 		if v, ok := env.fr.srcValue(name); ok {
@@ -410,7 +426,7 @@ func (env *specEnv) lookupIdent(name string) (sval, bool) {
 			case *types.Var:
 				if sp := env.eng.prog.SPkgs[env.pkg.Path()]; sp != nil {
 					if g, ok := sp.Members[name].(*ssa.Global); ok {
-						return env.deref(sval{t: env.eng.topFrame.val(g), typ: g.Type()}), true
+						return env.deref(sval{t: env.eng.globalLoc(g), typ: g.Type()}), true
 					}
 				}
 			}
@@ -547,7 +563,7 @@ func (env *specEnv) eval(e Expr) sval {
 			case *types.Var:
 				if sp := eng.prog.SPkgs[x.pkg.Path()]; sp != nil {
 					if g, ok := sp.Members[e.Name].(*ssa.Global); ok {
-						return env.deref(sval{t: eng.topFrame.val(g), typ: g.Type()})
+						return env.deref(sval{t: eng.globalLoc(g), typ: g.Type()})
 					}
 				}
 			}
